@@ -82,6 +82,7 @@ impl Parser for MarkdownParser {
         let iterator = MarkdownIterator::new(languages, text.lines());
         let mut line_parser = LineParser::new(self.expectation_maker.clone(), false);
         let mut title_paragraph = vec![];
+        let mut title_is_header = false;
         let mut config = DocumentConfig::default_markdown();
 
         for token in iterator {
@@ -97,11 +98,19 @@ impl Parser for MarkdownParser {
                     config = config.with_overrides_from(&parsed_config);
                 }
                 MarkdownToken::Line(_, line) => {
-                    if let Some((_, title)) = extract_title(&line) {
+                    if let Some((prefix, title)) = extract_title(&line) {
+                        // a header is a title of its own: it does not continue
+                        // the lines before it and is not continued
+                        let is_header = !prefix.is_empty();
+                        if is_header || title_is_header {
+                            title_paragraph.clear();
+                        }
+                        title_is_header = is_header;
                         title_paragraph.push(title);
                         line_parser.set_testcase_title(&title_paragraph.join("\n"));
                     } else if !title_paragraph.is_empty() {
                         title_paragraph.clear();
+                        title_is_header = false;
                     }
                 }
                 MarkdownToken::VerbatimCodeBlock {
